@@ -15,6 +15,14 @@ ALL = [f"C{i:02d}" for i in range(1, 21)]
 
 # property id -> (technique, level text, level note, design ref)
 CLAIMED = {
+    'C01': (
+        "Hypothesis type-directed generation (type grammar x construct-then-mutate values) against a reference interpreter (three-valued oracle), with determinism re-evaluation on a fresh equal type",
+        "Searches the type-expression x value space with a grammar-based generator and compares every from_data verdict and result "
+        "(deep exact-type comparison) with an independent reference interpreter of the documented rules; failures are bucketed by the "
+        "smallest failing sub-type. Evidence that the property held on everything explored, with the class histogram of what was explored.",
+        "Trusts the reference interpreter (pv/tg.py, pv/cg.py), stdlib constructors, and the list of unspecified cells in DESIGN.md section 2.",
+        "DESIGN.md section 5, C01",
+    ),
     'C20': (
         "exhaustive enumeration of a finite name set + Hypothesis search, against an independent canonical renderer",
         "Every 1-3 word name over a 3-letter alphabet (47 988 names) is swept exhaustively through all 5 styles and all 25 style "
